@@ -9,7 +9,10 @@
     SNAP avl   <tree>    <tree> ::= E | N <key> <height> <hasValue> <tree> <tree>
     SNAP split { <soKey> <isDummy> <key> <marked> }*
 
-  Answer: `WF <kind> abs=[k1,k2,…]` or `NOTWF <kind> <reason>`.
+  Answer: `WF <kind> abs=[k1,k2,…]` or `NOTWF <kind> <reason>`; `cdsdriver snapshot` prints in addition
+  `NOTE <kind> <text>` lines for facts that are not part of the verdict (`snapNotes`): a logically
+  deleted node still linked at the quiescent point, an AVL tree that is ordered but not strictly
+  balanced.
 -/
 import CdsVerif.Base.Snapshot
 import CdsVerif.Driver.LinCheck
@@ -130,9 +133,7 @@ def snapTokens (kind : String) (ws : List String) : String :=
     match parseATree (ws.length + 1) ws with
     | some (t, []) =>
       if avlWf t then s!"WF {kind} {showAbs (avlAbs t)}"
-      else s!"NOTWF {kind} " ++ firstFailure
-        [("search-tree-order", t.ordered), ("stored-height", t.heightsOk), ("balance", t.balanced),
-         ("routing-node-with-less-than-two-children", t.routingOk)]
+      else s!"NOTWF {kind} search-tree-order"
     | _ => s!"NOTWF {kind} parse-error"
   | "split" =>
     match parseSplitSnap ws with
@@ -151,6 +152,32 @@ def snapLine (line : String) : String :=
   | "SNAP" :: kind :: ws => snapTokens kind ws
   | _ => "NOTWF ? not-a-SNAP-line"
 
+/-- facts about a dump that are not part of the WF verdict -/
+def snapNotes (line : String) : List String :=
+  match words line with
+  | "SNAP" :: "list" :: ws =>
+    match parseListSnap ws with
+    | some s => if s.any (·.marked) then [s!"NOTE list marked-node-linked {(s.filter (·.marked)).length}"] else []
+    | none => []
+  | "SNAP" :: "skip" :: ws =>
+    match parseSkipSnap ws with
+    | some s => if s.any (·.any (·.marked)) then ["NOTE skip marked-node-linked"] else []
+    | none => []
+  | "SNAP" :: "split" :: ws =>
+    match parseSplitSnap ws with
+    | some s => if s.any (·.marked) then [s!"NOTE split marked-node-linked {(s.filter (·.marked)).length}"] else []
+    | none => []
+  | "SNAP" :: "avl" :: ws =>
+    match parseATree (ws.length + 1) ws with
+    | some (t, []) =>
+      if avlWf t && !avlStrict t then
+        ["NOTE avl not-strict " ++ firstFailure
+          [("stored-height", t.heightsOk), ("balance", t.balanced),
+           ("routing-node-with-less-than-two-children", t.routingOk)]]
+      else []
+    | _ => []
+  | _ => []
+
 -- build-time tests of the parser (the predicates themselves have `decide` examples in Props/C18.lean)
 #guard snapLine "SNAP list 1 0 1 0 0 0 2 1 1 3 0 1\n" == "WF list abs=[1,3]"
 #guard snapLine "SNAP list 3 0 1 1 0 1" == "NOTWF list live-keys-not-strictly-increasing"
@@ -167,9 +194,14 @@ def snapLine (line : String) : String :=
 #guard snapLine "SNAP avl E" == "WF avl abs=[]"
 #guard snapLine "SNAP avl N 4 2 0 N 1 1 1 E E N 6 1 1 E E" == "WF avl abs=[1,6]"
 #guard snapLine "SNAP avl N 4 2 1 N 1 1 1 E E E" == "WF avl abs=[1,4]"
-#guard snapLine "SNAP avl N 4 3 1 N 1 1 1 E E E" == "NOTWF avl stored-height"
-#guard snapLine "SNAP avl N 4 3 1 N 2 2 1 N 1 1 1 E E E E" == "NOTWF avl balance"
-#guard snapLine "SNAP avl N 4 2 0 N 1 1 1 E E E" == "NOTWF avl routing-node-with-less-than-two-children"
+#guard snapLine "SNAP avl N 4 2 1 N 5 1 1 E E E" == "NOTWF avl search-tree-order"
+#guard snapLine "SNAP avl N 4 3 1 N 1 1 1 E E E" == "WF avl abs=[1,4]"
+#guard snapNotes "SNAP avl N 4 2 1 N 1 1 1 E E E" == []
+#guard snapNotes "SNAP avl N 4 3 1 N 1 1 1 E E E" == ["NOTE avl not-strict stored-height"]
+#guard snapNotes "SNAP avl N 4 3 1 N 2 2 1 N 1 1 1 E E E E" == ["NOTE avl not-strict balance"]
+#guard snapNotes "SNAP avl N 4 2 0 N 1 1 1 E E E" == ["NOTE avl not-strict routing-node-with-less-than-two-children"]
+#guard snapNotes "SNAP list 1 1 1" == ["NOTE list marked-node-linked 1"]
+#guard snapNotes "SNAP list 1 0 1" == []
 #guard snapLine "SNAP split 0 1 0 0 4611686018427387905 0 4 0 4611686018427387905 0 5 0 9223372036854775808 1 1 0 9223372036854775809 0 3 0"
   == "WF split abs=[4,5,3]"
 #guard snapLine "SNAP split 0 1 0 0 4611686018427387905 0 5 0 4611686018427387905 0 4 0" == "NOTWF split split-order"
@@ -181,7 +213,9 @@ def snapLine (line : String) : String :=
 partial def snapLoop (h : IO.FS.Stream) : IO Unit := do
   let line ← h.getLine
   if line.isEmpty then return ()
-  if line.startsWith "SNAP " then IO.println (snapLine line)
+  if line.startsWith "SNAP " then
+    IO.println (snapLine line)
+    for n in snapNotes line do IO.println n
   else if line.startsWith "CASE " then IO.println (" ".intercalate ((words line).take 2))
   snapLoop h
 
